@@ -93,6 +93,8 @@ MACRO_REGEX_REDIRECTS = [
     # terminal arm of register_histogram! -> contract stand-in returning the options that reach it
     # (Histogram::with_opts + register do not finish under CBMC); the delegating arms stay real
     ("src/macros.rs", r"(?m)^ {8}let histogram = \$crate::Histogram::with_opts\(\$HOPTS\)\.unwrap\(\);\n {8}\$crate::register\(Box::new\(histogram\.clone\(\)\)\)\.map\(\|\(\)\| histogram\)$", "        $crate::__vsup::terminal_histogram_arm($HOPTS)", 1),
+    # same for the @of_type arm of register_counter! (shared by register_int_counter!)
+    ("src/macros.rs", r"(?m)^ {8}let counter = \$crate::\$TYPE::with_opts\(\$OPTS\)\.unwrap\(\);\n {8}\$crate::register\(Box::new\(counter\.clone\(\)\)\)\.map\(\|\(\)\| counter\)$", "        $crate::__vsup::terminal_counter_arm(core::stringify!($TYPE), $OPTS)", 1),
 ]
 FMT_ASSUMPTION = "std format! is replaced by its contract at the 5 call sites whose result is used functionally (desc.rs `format!(\"${}\", label_name)` -> \"$\" ++ name; metrics.rs build_fq_name's three joins and registry.rs gather's prefix join -> a ++ \"_\" ++ b) by exact-text rewrite in the scratch copy; every other format! builds an error message and is stubbed to the empty string. Reason: std::fmt::write does not terminate under CBMC even on concrete arguments (measured > 5 min)"
 MAPS_ASSUMPTION = "std HashMap/HashSet/BTreeMap/BTreeSet are replaced by the contract shim /verif/kani/vcoll.rs (functional map with key equality; HashMap iteration order is a nondeterministic permutation at every iteration = every hash seed; BTree* iterate in key order) through a mechanical rewrite of the `use std::collections::...` lines of counter.rs, desc.rs, histogram.rs, metrics.rs, vec.rs, registry.rs, pulling_gauge.rs in the scratch copy; the std implementations themselves are assumed to meet that contract"
@@ -188,7 +190,7 @@ PLAN = {
         modules=["macros_c20"],
         verus=[],
         functions=[],
-        assumptions=[MAPS_ASSUMPTION, FMT_ASSUMPTION, SORT_ASSUMPTION, "REDUCED AND BOUNDED: only the CONSTRUCTION macros are decided -- every arm of labels!, opts! and histogram_opts! (with and without trailing comma) on concrete arguments, against the explicit constructor calls; of the REGISTRATION macros only the two delegating arms of register_histogram! are checked, with the terminal arm (Histogram::with_opts + register) replaced in the scratch copy by the stand-in __vsup::terminal_histogram_arm that returns the options reaching it (regex rewrite of src/macros.rs; lost anchor = undecided); otherwise the REGISTRATION arms (register_* / register_*_with_registry) are NOT decided: expanding one (Counter::with_opts + Registry::register on the real collector) runs out of memory/time under CBMC (measured, harness kept with tier off), the default-registry arms additionally need lazy_static, and 'updates show in that registry's gather' needs gather (out of reach)", "inside the bodies of labels! and opts! `use std::collections::HashMap` is redirected to the collections shim (regex rewrite of exactly those two lines)"],
+        assumptions=[MAPS_ASSUMPTION, FMT_ASSUMPTION, SORT_ASSUMPTION, "REDUCED AND BOUNDED: only the CONSTRUCTION macros are decided -- every arm of labels!, opts! and histogram_opts! (with and without trailing comma) on concrete arguments, against the explicit constructor calls; of the REGISTRATION macros only the delegating arms of register_histogram!, register_counter! and register_int_counter! are checked, with their terminal arms (X::with_opts + register) replaced in the scratch copy by the stand-ins __vsup::terminal_histogram_arm / terminal_counter_arm that return the type identifier and options reaching them (regex rewrite of src/macros.rs; lost anchor = undecided); otherwise the REGISTRATION arms (register_* / register_*_with_registry) are NOT decided: expanding one (Counter::with_opts + Registry::register on the real collector) runs out of memory/time under CBMC (measured, harness kept with tier off), the default-registry arms additionally need lazy_static, and 'updates show in that registry's gather' needs gather (out of reach)", "inside the bodies of labels! and opts! `use std::collections::HashMap` is redirected to the collections shim (regex rewrite of exactly those two lines)"],
     ),
     "C18": dict(
         title="A timer records its duration exactly once, or never when discarded",
@@ -334,5 +336,5 @@ for _k, _v in LEVEL_TEXT.items():
     if _k in PLAN:
         PLAN[_k]["level_text"] = _v
 
-LEVEL_TEXT["C20"] = "REDUCED, bounded/enumerated: every arm of labels!, opts!, histogram_opts! equals the explicit constructor call on concrete arguments; of the registration macros only the two DELEGATING arms of register_histogram! are checked (they forward name, help and buckets unchanged to the terminal arm, which is replaced by a contract stand-in); terminal registration arms and all other register_* macros are not decided (out of CBMC's reach, measured)"
+LEVEL_TEXT["C20"] = "REDUCED, bounded/enumerated: every arm of labels!, opts!, histogram_opts! equals the explicit constructor call on concrete arguments; of the registration macros only the DELEGATING arms of register_histogram!, register_counter! and register_int_counter! are checked (they forward type, name, help and buckets unchanged to the terminal arm, which is replaced by a contract stand-in); terminal registration arms and all other register_* macros are not decided (out of CBMC's reach, measured)"
 PLAN["C20"]["level_text"] = LEVEL_TEXT["C20"]
